@@ -37,6 +37,9 @@ type Prog struct {
 	idl       string
 	useBase   bool
 	raw       bool
+	// Typedef: every scalar type is reached through a typedef alias (`typedef binary T_binary`), the way
+	// real IDLs name their types; descriptors must not depend on the spelling of the type name.
+	Typedef bool
 }
 
 // RawProg is a program given as hand-written IDL text (recursive types cannot be tbin.Shapes).
@@ -169,7 +172,8 @@ func (p *Prog) IDL() string {
 	if p.idl != "" || p.raw {
 		return p.idl
 	}
-	var defs []string
+	var defs, tdefs []string
+	typedefs := map[string]bool{}
 	names := map[*tbin.Shape]string{}
 	var tname func(s *tbin.Shape) string
 	tname = func(s *tbin.Shape) string {
@@ -228,9 +232,18 @@ func (p *Prog) IDL() string {
 			defs = append(defs, fmt.Sprintf("struct %s {\n%s\n}%s\n", n, strings.Join(body, "\n"), sa))
 			return n
 		}
+		if p.Typedef {
+			n := "T_" + scalarName(s)
+			if !typedefs[n] {
+				typedefs[n] = true
+				tdefs = append(tdefs, fmt.Sprintf("typedef %s %s\n", scalarName(s), n))
+			}
+			return n
+		}
 		return scalarName(s)
 	}
 	root := tname(p.Root)
+	defs = append(tdefs, defs...)
 	hdr := "namespace go verif\n"
 	if p.useBase {
 		hdr = "include \"base.thrift\"\n" + hdr
